@@ -41,7 +41,7 @@ func spec() corr.Spec {
 			case "thorough":
 				return 120000
 			default: // search
-				return 250000
+				return 160000
 			}
 		},
 		Gen: func(r *rng.R, tier string, i int) corr.Case { return genCase(r, tier, i) },
